@@ -8,12 +8,14 @@ package main
 import (
 	"encoding/json"
 	"fmt"
+	"math"
 	"math/rand"
 	"net/http"
 	"os"
 	"sort"
 	"strconv"
 	"sync"
+	"sync/atomic"
 	"time"
 
 	vegeta "github.com/tsenart/vegeta/v12/lib"
@@ -290,6 +292,75 @@ func runC04Case(run *ev.Run, cs c04Case) {
 	}
 }
 
+// runC04Huge: after k hits at zero wait the pacer asks for a wait close to the largest
+// representable duration. The hit it belongs to must not start (it is due in ~292 years) and
+// the pacer must not be consulted again. A healthy attack then sleeps for good, so the verdict
+// is taken after a short pause and the attack is abandoned (its loop cannot even observe Stop);
+// the pause only bounds how long a premature hit gets to show itself, a healthy attack passes
+// whatever the pause. These cases run last in their process: the sleeping loop goroutine they
+// leave behind would blind awaitEnd's all-parked test.
+func runC04Huge(run *ev.Run, cs c04Case) {
+	base := time.Now()
+	k := cs.StopAt
+	p := &recPacer{base: base}
+	p.decide = func(i int, _ time.Duration, _ uint64) (time.Duration, bool) {
+		if i < k {
+			return 0, false
+		}
+		return cs.WaitNs, false
+	}
+	rt := &recTransport{base: base, pacer: p}
+	tg := &recTargeter{targets: defaultTargets()}
+	atk := vegeta.NewAttacker(vegeta.Client(&http.Client{Transport: rt}), vegeta.Workers(cs.Workers), vegeta.MaxWorkers(cs.Max))
+	results := atk.Attack(tg.Targeter(), p, cs.Duration, "c04huge")
+	var consumed atomic.Int64
+	go func() {
+		for range results {
+			consumed.Add(1)
+		}
+	}()
+	viol := func(clause, note string) {
+		p.mu.Lock()
+		recs := append([]paceRec{}, p.recs...)
+		p.mu.Unlock()
+		rt.mu.Lock()
+		entries := append([]entryRec{}, rt.entries...)
+		rt.mu.Unlock()
+		run.Violate("C04/"+clause+"/huge-wait", fmt.Sprintf("%+v: %s", cs, note),
+			c04Witness{Case: cs, Clause: clause, Note: note, Pace: recs[max(0, len(recs)-4):], Entries: entries[max(0, len(entries)-3):]})
+	}
+	// wait (watchdog: inconclusive) until the k zero-wait hits are through and Pace call #k has answered
+	deadline := time.Now().Add(60 * time.Second)
+	for consumed.Load() < int64(k) || p.released.Load() < int64(k+1) {
+		if time.Now().After(deadline) {
+			run.Inconclusive(fmt.Sprintf("C04 huge-wait attack %+v: only %d of %d results after 60s", cs, consumed.Load(), k))
+			atk.Stop()
+			return
+		}
+		time.Sleep(200 * time.Microsecond)
+	}
+	time.Sleep(25 * time.Millisecond)
+	started, calls := rt.started.Load(), int64(0)
+	p.mu.Lock()
+	calls = int64(len(p.recs))
+	p.mu.Unlock()
+	atk.Stop()
+	run.Eval(1)
+	run.Count("attacks", 1)
+	run.Count("attacks_whose_pacer_asks_for_a_wait_of_centuries", 1)
+	run.Count("pace_calls", calls)
+	run.Count("transport_entries", started)
+	if started > int64(k) {
+		viol("hit-before-its-wait", fmt.Sprintf("Pace call #%d asked for a wait of %v (%d ns); %d hits have started although only %d were due", k, cs.WaitNs, int64(cs.WaitNs), started, k))
+	}
+	if calls > int64(k+1) {
+		viol("paced-during-wait", fmt.Sprintf("Pace call #%d asked for a wait of %v; the pacer has been consulted %d more times since", k, cs.WaitNs, calls-int64(k+1)))
+	}
+	run.Class("huge/abandoned")
+	b, _ := json.Marshal(cs)
+	run.Distinct(string(b))
+}
+
 func runC04(c *Ctx) int {
 	if c.Child != nil {
 		run := ev.NewChildRun("C04", c.Tier)
@@ -301,6 +372,13 @@ func runC04(c *Ctx) int {
 			b, _ := json.Marshal(cs)
 			logCase(string(b))
 			runC04Case(run, cs)
+		}
+		for i := 0; i < 2; i++ {
+			w := []time.Duration{math.MaxInt64, math.MaxInt64 - time.Duration(rng.Int63n(1_000_000)), math.MaxInt64 - time.Duration(rng.Int63n(int64(time.Hour)))}[rng.Intn(3)]
+			cs := c04Case{Pacer: "huge", WaitNs: w, StopAt: 1 + rng.Intn(40), Workers: []uint64{1, 2, 8}[rng.Intn(3)], Max: 8, Duration: []time.Duration{0, time.Hour}[rng.Intn(2)], Seed: rng.Int63()}
+			b, _ := json.Marshal(cs)
+			logCase(string(b))
+			runC04Huge(run, cs)
 		}
 		fmt.Println(run.BlobLine())
 		return 0
@@ -324,6 +402,10 @@ func runC04(c *Ctx) int {
 			return ev.ExitBroken
 		}
 		for i := 0; i < 20; i++ {
+			if v.Detail.Case.Pacer == "huge" {
+				runC04Huge(run, v.Detail.Case)
+				break
+			}
 			runC04Case(run, v.Detail.Case)
 		}
 		run.Distinct("replay")
@@ -340,6 +422,7 @@ func runC04(c *Ctx) int {
 		foldChild(run, o, inVegeta)
 	}
 	run.Floor("attacks", int64(shards*per*9/10))
+	run.Floor("attacks_whose_pacer_asks_for_a_wait_of_centuries", int64(shards))
 	run.Floor("pace_calls", 3000)
 	run.Floor("transport_entries", 3000)
 	run.FloorDistinct(shards * per / 2)
